@@ -18,7 +18,7 @@ from props import c01_pbf as P
 MODULES = ['Osmium.Props.C02Pbf']
 EXES = ['model_pbf']
 RULE = ('PBF/C02: case = (choice vector, header, object sequence D representable under the choices); choice vectors: one coordinate at a time from the default '
-        'plus random combinations of g in {1,10,25,50,100,200,1000,10000}, offsets (multiples of 100 up to ±10^11), date_granularity in {1,10,100,500,1000,2000,60000}, '
+        'plus random combinations of g in {1,10,25,50,100,200,1000,10000}, offsets (multiples of gcd(g,100), half of them not multiples of 100, up to ±10^11), date_granularity in {1,10,100,500,1000,2000,60000}, '
         'dense, omit-defaults, write-defaults, version −1, field-order seed, unknown extras, indexdata 0..65 500 bytes, string-table padding/duplicates, '
         'block sizes 1..n, group sizes 1..n; D as in C01 (ids/uids/timestamps at the boundaries) restricted to representable coordinates/timestamps; '
         'non-trivial = at least one object or a non-default choice')
@@ -103,8 +103,11 @@ class Choices:
 def repr_coord(rng, g, off):
     """a coordinate (1e-7 deg units, int32) representable with granularity g and offset off"""
     step = 100 // math.gcd(g, 100)
+    # stored values s with off + g*s a multiple of 100 nanodegrees form the residue class s0 mod step
+    # (it exists iff gcd(g, 100) divides off; offsets need NOT be multiples of 100 — seed C02-3)
+    s0 = next((r for r in range(step) if (off + g * r) % 100 == 0), 0)
     for _ in range(50):
-        s = step * (rng.below(2 ** 20) - 2 ** 19) if rng.chance(1, 2) else step * (rng.below(2 ** 34) - 2 ** 33) // max(1, g // 100 + 1)
+        s = s0 + step * (rng.below(2 ** 20) - 2 ** 19) if rng.chance(1, 2) else s0 + step * ((rng.below(2 ** 34) - 2 ** 33) // max(1, g // 100 + 1))
         c7 = (off + g * s) // 100
         if (off + g * s) % 100 == 0 and -2 ** 31 <= c7 < 2 ** 31 and c7 != UNDEF:
             return c7
@@ -154,9 +157,14 @@ def choice_vectors(rng, quick):
                dict(ex=1), dict(ex=2, dense=1), dict(ix=0), dict(ix=1), dict(ix=150), dict(ix=65500), dict(ix=65517), dict(pad=1), dict(pad=9, dup=1), dict(dup=1, dense=1),
                dict(split='1', rest=1), dict(split='2,3', rest=4), dict(gs=1), dict(gs=2, dense=1), dict(rest=3, gs=2)]
     cs += [Choices(**s) for s in singles]
+    # offsets that are not multiples of 100 nanodegrees (legal: coordinates are offset + granularity*stored)
+    cs += [Choices(g=50, la=50, lo=-50), Choices(g=10, la=30, lo=-99999999970, dense=1), Choices(g=1, la=1, lo=-1),
+           Choices(g=25, la=-75, lo=25, dense=1), Choices(g=1000, la=-700, lo=300), Choices(g=20, la=60, lo=-40, dense=1, wd=1)]
     for _ in range(360 if quick else 6000):
-        kw = dict(g=rng.choice([1, 10, 25, 50, 100, 100, 200, 1000, 10000]), la=100 * (rng.below(2001) - 1000) * rng.choice([1, 1, 10 ** 6]),
-                  lo=100 * (rng.below(2001) - 1000) * rng.choice([1, 1, 10 ** 6]), dg=rng.choice([1, 10, 100, 500, 1000, 1000, 2000, 60000]), dense=rng.below(2), wd=rng.below(2),
+        g = rng.choice([1, 10, 25, 50, 100, 100, 200, 1000, 10000])
+        unit = 100 if rng.chance(1, 2) else math.gcd(g, 100)
+        kw = dict(g=g, la=unit * (rng.below(2001) - 1000) * rng.choice([1, 1, 10 ** 6]),
+                  lo=unit * (rng.below(2001) - 1000) * rng.choice([1, 1, 10 ** 6]), dg=rng.choice([1, 10, 100, 500, 1000, 1000, 2000, 60000]), dense=rng.below(2), wd=rng.below(2),
                   od=rng.below(2), vm=rng.below(2), seed=rng.below(1000), ex=rng.below(3), ix=rng.choice([-1, -1, 0, 7, 200, 5000, 65400]), pad=rng.below(4), dup=rng.below(2),
                   split=','.join(str(1 + rng.below(4)) for _ in range(rng.below(3))), rest=1 + rng.below(9), gs=1 + rng.below(6))
         cs.append(Choices(**kw))
